@@ -11,7 +11,7 @@ Lemma step_assoc sess me r alt nd a res :
   match res with
   | Ok (nd', a', t') => AInv sess (set_thr a' r t') /\ node_frame nd nd'
   | Blocked => True
-  | Panic _ => cclosed (n_pcd nd) = true
+  | Panic site => cclosed (n_pcd nd) = true /\ site = "send on closed channel"%string
   end.
 Proof.
   intros Hr. destruct r; try discriminate Hr.
@@ -244,7 +244,7 @@ Proof.
       try discriminate; injection H as <-.
     + destruct Hstep as [_ (F1 & F2 & F3 & F4 & F5 & F6 & F7 & F8 & F9)].
       constructor; cbn; try congruence. rewrite F1; [exact Hc|]. rewrite Hc. reflexivity.
-    + congruence.
+    + destruct Hstep. congruence.
 Qed.
 
 Theorem no_panic_without_stop cfg ev sch : no_stop ev -> s_panic (run (init cfg ev) sch) = None.
@@ -318,4 +318,107 @@ Proof.
     - split; [split; [apply ginv_init | apply ns_init; exact Hns]|]. split; [|exact Hu].
       unfold init, init_cap. cbn. rewrite nth_error_map, Hc. reflexivity. }
   destruct H as [_ [H _]]. exact H.
+Qed.
+
+(* ================================================================== with Stop: the only panic there is *)
+(* the node closes pConnDone and done once each *)
+Definition NInv (nd : node) : Prop :=
+  t_fn (n_thr nd) = FNode /\ t_fn (n_stop nd) = FStop
+  /\ (cclosed (n_pcd nd) = true -> 6 <= t_pc (n_thr nd))
+  /\ (cclosed (n_done nd) = true -> 8 <= t_pc (n_thr nd)).
+
+Lemma ninv_node alt nd res :
+  NInv nd -> thread_step 0 RNode alt nd assoc0 (n_thr nd) = res ->
+  match res with
+  | Ok (nd', _, t') => NInv (nset_thr nd' t')
+  | Blocked => True
+  | Panic _ => False
+  end.
+Proof.
+  intros (Hf & Hs & Hp & Hd) H.
+  destruct nd as [cx pc dn ls mp ex bu mn th sp]. cbn in *.
+  destruct th as [st fn p rt it]. cbn in *. subst fn.
+  unfold thread_step in H. cbn in H.
+  destruct res as [[[nd' a'] t']| |site]; [ | exact I | ];
+    (destruct st; try discriminate H);
+    do 9 (try destruct p as [|p]); cbn in H; try discriminate H;
+    unfold ch_close, ch_recv in H; inv_ok;
+    unfold NInv; cbn; repeat split; intros; try lia; try congruence;
+    try (specialize (Hp eq_refl); lia); try (specialize (Hd eq_refl); lia);
+    try (match goal with E : cclosed _ = true |- _ => first [specialize (Hp E) | specialize (Hd E)]; lia end).
+Qed.
+
+Lemma ninv_stop nd res :
+  NInv nd -> thread_step 0 RStop 0 nd assoc0 (n_stop nd) = res ->
+  match res with
+  | Ok (nd', _, t') => NInv (nset_stop nd' t')
+  | Blocked => True
+  | Panic _ => False
+  end.
+Proof.
+  intros (Hf & Hs & Hp & Hd) H.
+  destruct nd as [cx pc dn ls mp ex bu mn th sp]. cbn in *.
+  destruct sp as [st fn p rt it]. cbn in *. subst fn.
+  unfold thread_step in H. cbn in H.
+  destruct res as [[[nd' a'] t']| |site]; [ | exact I | ];
+    (destruct st; try discriminate H);
+    do 5 (try destruct p as [|p]); cbn in H; try discriminate H;
+    unfold ch_cancel, ch_recv in H; inv_ok;
+    unfold NInv; cbn; repeat split; intros; auto.
+Qed.
+
+Lemma ninv_frame nd nd' : NInv nd -> node_frame nd nd' -> NInv nd'.
+Proof.
+  intros (Hf & Hs & Hp & Hd) (F1 & F2 & F3 & F4 & F5 & F6 & F7 & F8 & F9).
+  unfold NInv. rewrite F2, F3, F4, F8. auto.
+Qed.
+
+Lemma ninv_env s e : NInv (s_node s) -> NInv (s_node (apply_env s e)).
+Proof.
+  intros H. destruct e as [i d|i|i| |]; cbn; try (destruct (nth_error (s_asc s) i); exact H).
+  - destruct (s_node s). destruct H as (Hf & Hs & Hp & Hd). unfold NInv. cbn in *. auto.
+  - destruct (s_node s). destruct H as (Hf & Hs & Hp & Hd). unfold NInv. cbn in *. auto.
+Qed.
+
+Definition send_closed : string := "send on closed channel".
+Definition PInv (cfg : list acfg) (s : state) : Prop :=
+  GInv cfg s /\ NInv (s_node s) /\ (forall site, s_panic s = Some site -> site = send_closed).
+
+Lemma pinv_step cfg s l s' : PInv cfg s -> step s l = Some s' -> PInv cfg s'.
+Proof.
+  intros (Hg & Hn & Hp) H. split; [eapply ginv_step; eauto|].
+  unfold step in H. destruct (dead s); [discriminate|].
+  destruct l as [k|alt| |i r alt].
+  - destruct (nth_error (s_env s) k) as [e|]; [|discriminate]. injection H as <-. cbn.
+    split; [apply ninv_env; exact Hn | discriminate].
+  - destruct (Nat.leb 3 alt); [discriminate|].
+    pose proof (ninv_node alt (s_node s) _ Hn eq_refl) as Hs.
+    destruct (thread_step 0 RNode alt (s_node s) assoc0 (n_thr (s_node s))) as [[[nd' a'] t']| |site];
+      try discriminate; [|destruct Hs]. injection H as <-. cbn. split; [exact Hs | discriminate].
+  - pose proof (ninv_stop (s_node s) _ Hn eq_refl) as Hs.
+    destruct (thread_step 0 RStop 0 (s_node s) assoc0 (n_stop (s_node s))) as [[[nd' a'] t']| |site];
+      try discriminate; [|destruct Hs]. injection H as <-. cbn. split; [exact Hs | discriminate].
+  - destruct (negb (is_assoc_role r) || Nat.leb 3 alt) eqn:Eg; [discriminate|].
+    apply orb_false_elim in Eg. destruct Eg as [Er _]. apply negb_false_iff in Er.
+    destruct (nth_error (s_asc s) i) as [a|] eqn:Ea; [|discriminate].
+    destruct (Forall2_nth _ _ _ _ _ Hg Ea) as (se & Hse & Ha).
+    pose proof (step_assoc se (N.of_nat i) r alt (s_node s) a _ Er Ha eq_refl) as Hstep.
+    destruct (thread_step (N.of_nat i) r alt (s_node s) a (get_thr a r)) as [[[nd' a'] t']| |site];
+      try discriminate; injection H as <-; cbn.
+    + destruct Hstep as [_ Hfr]. split; [eapply ninv_frame; eauto | discriminate].
+    + destruct Hstep as [_ ->]. split; [exact Hn|]. intros site' [= <-]. reflexivity.
+Qed.
+
+Lemma ninv_init cap cfg : NInv (init_node cap cfg).
+Proof. unfold NInv. cbn. repeat split; discriminate. Qed.
+
+(* in EVERY configuration and under EVERY schedule the only panic the agent's teardown can raise is the send on
+   the closed pConnDone: no channel is ever closed twice *)
+Theorem only_panic_is_send_on_closed cfg ev sch site :
+  s_panic (run (init cfg ev) sch) = Some site -> site = send_closed.
+Proof.
+  assert (H : PInv cfg (run (init cfg ev) sch)).
+  { unfold run. apply (run_inv state tid step (PInv cfg)); [intros; eapply pinv_step; eauto|].
+    split; [apply ginv_init|]. split; [apply ninv_init | cbn; discriminate]. }
+  destruct H as (_ & _ & H). apply H.
 Qed.
